@@ -4,6 +4,7 @@ import (
 	"fmt"
 	"math/big"
 
+	baskettypes "github.com/regen-network/regen-ledger/x/ecocredit/v3/basket/types/v1"
 	markettypes "github.com/regen-network/regen-ledger/x/ecocredit/v3/marketplace/types/v1"
 
 	"verif/harness/explore"
@@ -36,8 +37,50 @@ func floorRat(r *big.Rat) *big.Int {
 }
 
 func (m *C19Coins) OnStep(_ explore.Ghost, st *explore.Step) []V {
+	if !st.Res.OK || st.Act.Kind != explore.ActMsg {
+		return nil
+	}
+	// basket use sites (basket/keeper/utils.go, an anchor of the property): credits <-> tokens go through
+	// the EXACT multiply / divide, so a successful Put mints exactly amount x 10^precision and a successful
+	// Take releases exactly tokens / 10^precision; a result that would need rounding must be an error
+	switch msg := st.Res.Msg.(type) {
+	case *baskettypes.MsgPut:
+		b := st.Pre.BasketByDenom(msg.BasketDenom)
+		if b == nil {
+			return nil
+		}
+		prec := basketPrecision(st.Pre, b.CreditTypeAbbrev)
+		sum := ref.Zero()
+		for _, c := range msg.Credits {
+			sum = ref.Add(sum, rat(c.Amount))
+		}
+		want := ref.Mul(sum, ref.RatOfInt(ref.Pow10(prec)))
+		got := new(big.Int).Sub(st.Post.TotalSupply(b.BasketDenom), st.Pre.TotalSupply(b.BasketDenom))
+		m.inc("puts_checked")
+		if ref.RatOfInt(got).Cmp(want) != 0 {
+			return []V{{Kind: "C19/coins/put-not-the-exact-product", Detail: fmt.Sprintf("%s: minted %s, exact %s", st.Act.Label, got, want.FloatString(3))}}
+		}
+		return nil
+	case *baskettypes.MsgTake:
+		b := st.Pre.BasketByDenom(msg.BasketDenom)
+		r, okR := st.Res.Resp.(*baskettypes.MsgTakeResponse)
+		if b == nil || !okR {
+			return nil
+		}
+		prec := basketPrecision(st.Pre, b.CreditTypeAbbrev)
+		burnt := new(big.Int).Sub(st.Pre.TotalSupply(b.BasketDenom), st.Post.TotalSupply(b.BasketDenom))
+		sum := ref.Zero()
+		for _, c := range r.Credits {
+			sum = ref.Add(sum, rat(c.Amount))
+		}
+		m.inc("takes_checked")
+		if want := new(big.Rat).Quo(ref.RatOfInt(burnt), ref.RatOfInt(ref.Pow10(prec))); sum.Cmp(want) != 0 {
+			return []V{{Kind: "C19/coins/take-not-the-exact-quotient", Detail: fmt.Sprintf("%s: %s tokens burnt, %s credits released, exact %s", st.Act.Label, burnt, sum.FloatString(8), want.FloatString(8))}}
+		}
+		return nil
+	}
 	bd, ok := st.Res.Msg.(*markettypes.MsgBuyDirect)
-	if !ok || !st.Res.OK || st.Act.Kind != explore.ActMsg {
+	if !ok {
 		return nil
 	}
 	pre, post := st.Pre, st.Post
